@@ -18,7 +18,8 @@ func (*Pointer) Matches(_ *MethodContext, source, target *xtype.Type) bool {
 // Build creates conversion source code for the given source and target type.
 func (p *Pointer) Build(gen Generator, ctx *MethodContext, sourceID *xtype.JenID, source, target *xtype.Type, errPath ErrorPath) ([]jen.Code, *xtype.JenID, *Error) {
 	ctx.SetErrorTargetVar(jen.Nil())
-	if ctx.UseConstructor && ctx.Conf.DefaultUpdate {
+	// only the pair of the method itself is updated on top of the constructor's result
+	if ctx.UseConstructor && ctx.Conf.DefaultUpdate && types.Identical(ctx.Conf.Source.T, source.T) && types.Identical(ctx.Conf.Target.T, target.T) {
 		buildStmt, valueVar, err := buildTargetVar(gen, ctx, sourceID, source, target, errPath)
 		if err != nil {
 			return nil, nil, err
